@@ -37,7 +37,7 @@ def legs_simple(pkg, run, qshards, tshards, **kw):
     return f
 
 
-HOME_SWEEP = "home sweep (enumerated in both tiers): a greedy cover of corpus objects gives every registered lint K objects on which its body runs (one passing, one reporting where the corpus has both); every (leaf x type-aware edit) mutant of those objects - OID leaves: OID dictionary harvested from zlint's sources + well-known algorithm/attribute/extension/EKU/policy OIDs (own family + 2 of each other family in quick, all in thorough); integers, times, bit strings, booleans: value lists; other leaves: ~170 hostile strings, edge bytes, re-tagging to 8 string and 11 other universal types, typed replacements - is linted with the lints the object was chosen for (self-signed bases: edit alone and edit + re-signing); inner nodes get 14 structural edits (truncated body, child dropped / duplicated / reversed, SEQUENCE<->SET, extra nesting ...); a feature cover adds one certificate per corpus OID that no home object has (field around it swept with every lint that runs), and synthetic CRLs / OCSP responses carry the fields the corpus lacks"
+HOME_SWEEP = "home sweep (enumerated in both tiers): a greedy cover of corpus objects gives every registered lint K objects on which its body runs (one passing, one reporting where the corpus has both); every (leaf x type-aware edit) mutant of those objects - OID leaves: OID dictionary harvested from zlint's sources + well-known algorithm/attribute/extension/EKU/policy OIDs (own family + 2 of each other family in quick, all in thorough); integers, times, bit strings, booleans: value lists; other leaves: ~170 hostile strings, edge bytes, re-tagging to 8 string and 16 other universal types (five of them tag numbers that need more than one identifier octet), typed replacements - is linted with the lints the object was chosen for (self-signed bases: edit alone and edit + re-signing); inner nodes get 14 structural edits (truncated body, child dropped / duplicated / reversed, SEQUENCE<->SET, extra nesting ...); a feature cover adds one certificate per corpus OID that no home object has (field around it swept with every lint that runs), and synthetic CRLs / OCSP responses carry the fields the corpus lacks"
 
 COMMON_ASSUME = [
     "inputs are those the zcrypto / x-crypto parsers accept (a parser error or a parser panic means: not in the domain)",
@@ -68,7 +68,7 @@ CHECKS = {
                 "enumerated boundary sweep: every lint with a dated boundary x K home objects (2 quick / 12 thorough) x {eff,ineff} x {-1s,0,+1s} x time forms "
                 "(UTCTime Z, GeneralizedTime Z; +0100 / -0500 offsets in thorough; where the object kind keeps fractional seconds also -500 ms, -1 ns, +500 ms) with the parsed dates additionally converted to zones +14/-12/+0530; rapid: generated "
                 "objects re-dated to registry dates +-{0,1s,1d} or uniform. Every lint of the kind is judged on every object against the integer window model. "
-                "Non-trivial = (lint, boundary, side, object) with the lint applicable and the object dated within 1 s of that lint's boundary.",
+                "Non-trivial = (lint, boundary, side, object) with the lint applicable and the object dated within 1 s of that lint's boundary. The caller's copy of a deprecated registry lint (Registry.ByName) with its window moved to one second either side of the object's date (five placements) is judged by the moved window.",
         "assumptions": COMMON_ASSUME + ["boundaries outside 1951..2048 (zlint's year-0 'ZeroDate') cannot be approached from both sides in UTCTime and are skipped in the sweep"],
     },
     "C04": {
@@ -99,7 +99,7 @@ CHECKS = {
         "rule": "enumerated: every Register* call found by a go/parser census of v3/lints/*/*.go (non-test) and every lint in the "
                 "default-build registry, each checked once (census==registry, lookups agree, metadata well-formed); generated: "
                 "after each of six run-time registrations (every kind, sources shared across kinds) the registry and every one- and two-lint view without certificate lints must agree with themselves (listing, per-kind sources, per-kind Names() sorted and duplicate-free, lookups); rapid near-miss / random names and sources looked up in the global and in generated filtered registries. "
-                "Non-trivial = one registered lint (census entry or metadata record) or a lookup that must miss; distinct by name. A lint's source must also be one the library's own recognisers know: LintSource.FromString gives it back and it survives JSON decoding.",
+                "Non-trivial = one registered lint (census entry or metadata record) or a lookup that must miss; distinct by name. A lint's source must also be one the library's own recognisers know: LintSource.FromString gives it back and it survives JSON decoding. Fresh-registry reads (race-detector build): on an untouched Filter result three goroutines make the same first call at the same moment while six others read - names, listings and lookups agree with an untouched twin, and the registry still lists and filters the same afterwards.",
         "assumptions": ["lint registrations are syntactic lint.Register* calls with a literal Name (the census reports any that are not)",
                         "the harness test binary imports github.com/zmap/zlint/v3 exactly as a default build does"],
     },
@@ -238,7 +238,7 @@ CHECKS = {
                 "WriteJSON, GetConfiguration, DefaultConfiguration}; shared registries = global + 1-3 generated filtered ones; 6-24 objects per program (corpus walked round-robin so every "
                 "lint body the corpus reaches runs concurrently, generated certificates, CRLs, OCSP); start barrier, generated Gosched points; each program executed 3 times; shards run "
                 "under GOMAXPROCS 1/2/4/16. Monitors: Go race detector (any report), panics, 180 s deadlock watchdog (120 s in the hammer); oracle: every concurrent lint digest equals the memoised "
-                "sequential digest. Non-trivial = program with >=2 mostly-linting goroutines and >=1 other goroutine; distinct by operation lists. Cold start also covers reads: while eight goroutines lint through the untouched global registry three more make every read call (JSON listing, names, sources, per-kind lists, lookups by source and name, a filter, example configuration) for the first time, each shard starting at another call; answers must equal the same calls made alone. Further legs (fresh processes, race detector): ~500 calls of pure helper functions (reserved addresses and networks, TLD table, FQDN / IDNA / country / onion helpers, trial division) made first concurrently then alone, and hammered; JSON encoders (result sets, results, statuses, sources, listing) from eight goroutines against the bytes produced alone; key-quality verdicts on chosen RSA keys from eight goroutines. Fresh-registry reads (race-detector build): 250 / 3000 rounds, each on an untouched Filter result: six goroutines loop over its read calls while a seventh makes one call for the first time (names, listing, sources, a filter, a lint run, example configuration, per-kind names - another each round); answers equal those of an untouched twin asked alone; a round that does not end within 60 s is a deadlock.",
+                "sequential digest. Non-trivial = program with >=2 mostly-linting goroutines and >=1 other goroutine; distinct by operation lists. Cold start also covers reads: while eight goroutines lint through the untouched global registry three more make every read call (JSON listing, names, sources, per-kind lists, lookups by source and name, a filter, example configuration) for the first time, each shard starting at another call; answers must equal the same calls made alone. Further legs (fresh processes, race detector): ~500 calls of pure helper functions (reserved addresses and networks, TLD table, FQDN / IDNA / country / onion helpers, trial division) made first concurrently then alone, and hammered; JSON encoders (result sets, results, statuses, sources, listing) from eight goroutines against the bytes produced alone; key-quality verdicts on chosen RSA keys from eight goroutines. Fresh-registry reads (race-detector build): 250 / 3000 rounds, each on an untouched Filter result: six goroutines loop over its read calls while a seventh makes one call for the first time (names, listing, sources, a filter, a lint run, example configuration, per-kind names - another each round); answers equal those of an untouched twin asked alone; a round that does not end within 60 s is a deadlock. In the fresh-registry rounds the first call is made by three goroutines released together by a spin barrier; afterwards the registry's names equal its twin's and it can still be filtered.",
         "assumptions": ["SetConfiguration / Register* concurrent with linting are outside the stated guarantee and not generated",
                         "schedules are sampled; the race detector reports an unsynchronised shared access whenever both accesses execute in one run"],
     },
